@@ -20,6 +20,9 @@ meaning is exercised by the bounded stand-in bounded/c19_native.py with the real
                               is NOT proved deductively (bounded stand-in)
   pd.concat(list, ...)        pd.concat(n, parts) with projections nparts / part
   series.values, x in values  pd.has(S, x)
+
+SCOPE: active only while a function of property C19 is verified (ctx.prop == 'C19'); declines otherwise, so the
+pandas models of other properties (core_pandas, c13_pandas, c14_fs) are untouched.
 """
 import ast
 
@@ -32,6 +35,11 @@ from pyvc.vals import I, V, Val, TRef, as_int, as_ref, fresh_name, uf, v_bool, v
 B = VV.B
 _DOM = z3.ArraySort(Val, B)
 _PARTS = z3.ArraySort(I, Val)
+
+
+def mine(ex) -> bool:
+    """SCOPE: every hook / patch of this module acts only while a function of property C19 is verified."""
+    return getattr(ex.ctx, 'prop', '') == 'C19'
 
 
 def is_df(v):
@@ -94,6 +102,8 @@ def concat(ex, st, n, part_at):
 
 @lib.hook('ref_subscript')
 def _df_subscript(ex, st, obj, idx, node):
+    if not mine(ex):
+        return None
     if is_df(obj) and idx.kind == 'str':
         ex.ctx.note('LIBSPEC pandas df[col]: free constructor pd.col(frame, col)')
         return mk_series(uf('pd.col', Val, Val, Val)(frame_of(st, obj), idx.t))
@@ -105,6 +115,8 @@ def _df_subscript(ex, st, obj, idx, node):
 
 @lib.hook('ref_attr')
 def _series_attr(ex, st, obj, name, node):
+    if not mine(ex):
+        return None
     if is_series(obj) and name == 'values':
         return V(obj.t, TRef('SeriesValues'))
     return None
@@ -112,6 +124,8 @@ def _series_attr(ex, st, obj, name, node):
 
 @lib.hook('ref_contains')
 def _series_contains(ex, st, container, item, node):
+    if not mine(ex):
+        return None
     if container.kind == 'ref' and container.ty.cls == 'SeriesValues':
         ex.ctx.note('LIBSPEC pandas `x in series.values`: uninterpreted membership pd.has(series, x)')
         return uf('pd.has', Val, Val, B)(container.t, ex.box(st, item))
@@ -120,6 +134,8 @@ def _series_contains(ex, st, container, item, node):
 
 @lib.hook('ref_method')
 def _pd_method(ex, st, recv, name, args, kwargs, node):
+    if not mine(ex):
+        return None
     if is_df(recv) and name == 'copy' and not args:
         ex.ctx.note('LIBSPEC pandas df.copy(): a new frame object with the same table value')
         return mk_df(ex, st, frame_of(st, recv))
@@ -168,14 +184,23 @@ def _concat(ex, st, args, kwargs, node):
     return mk_df(ex, st, concat(ex, st, n, parts))
 
 
-lib.LIB_HANDLERS['pandas.concat'] = _concat
+_orig_call_lib = lib.call_lib
+
+
+def _call_lib(ex, st, dotted, args, kwargs, node):
+    if dotted == 'pandas.concat' and mine(ex):
+        return _concat(ex, st, args, kwargs, node)
+    return _orig_call_lib(ex, st, dotted, args, kwargs, node)
+
+
+lib.call_lib = _call_lib
 
 # --- len(df) ---------------------------------------------------------------------------------
 _orig_len = lib.BUILTINS['len']
 
 
 def _len(ex, st, args, kw, node):
-    if len(args) == 1 and is_df(args[0]):
+    if mine(ex) and len(args) == 1 and is_df(args[0]):
         n = uf('pd.nrows', Val, I)(frame_of(st, args[0]))
         st.assume(n >= 0)
         ex.ctx.note('LIBSPEC len(df): pd.nrows(frame) >= 0')
@@ -190,7 +215,7 @@ _orig_compare = symexec.Executor.compare
 
 
 def _compare(self, st, op, l, r, node):
-    if isinstance(op, ast.Eq) and is_series(l) and not is_series(r):
+    if mine(self) and isinstance(op, ast.Eq) and is_series(l) and not is_series(r):
         self.ctx.note('LIBSPEC pandas series == x: free constructor pd.eq(series, x) (a mask)')
         return mk_series(uf('pd.eq', Val, Val, Val)(l.t, self.box(st, r)))
     return _orig_compare(self, st, op, l, r, node)
@@ -203,7 +228,7 @@ _orig_store = symexec.Executor.store_subscript
 
 
 def _store_subscript(self, st, obj, sl, v, node):
-    if obj.kind == 'ref' and obj.ty.cls == 'DataFrame':
+    if mine(self) and obj.kind == 'ref' and obj.ty.cls == 'DataFrame':
         idx = self.ev(st, sl)
         if idx.kind != 'str':
             raise Unsupported(f'DataFrame column assignment with a non-string key ({idx.kind} {idx.py})')
